@@ -862,9 +862,9 @@ class FxInterp(Interp):
             raise Brk()
         if k == 'field':
             name = e.get('name')
-            if ('.' + name) in env:
-                return env['.' + name]
-            raise Unanalysable(f'field `{name}` unbound')
+            if ('.' + str(name)) in env:
+                return env['.' + str(name)]
+            return super().val(e, env)
         return super().val(e, env)
 
 
